@@ -3,7 +3,8 @@ RULE = ('(levels) every pair l <= L of 24 levels x 9 input sizes (0 .. 1 MB, aro
         'initStatic(estimateCCtxSize / estimateCStreamSize (L)) placed against a PROT_NONE page at either end; (cparams) 9 strategies x <= D deviations over each cParams field\'s '
         '{min, min+1, mid, max-1, max} x row finder x LDM with estimate*_usingCParams / _usingCCtxParams and exactly those parameters; (dstream) all 112 window descriptors up to 15 MiB x 10 '
         'window limits: static stream of estimateDStreamSize(limit) decodes iff window <= limit, heap stream with windowLogMax refuses above and never holds more than '
-        'estimateDStreamSize(min(limit, window)); (sizeof) histories of <= 3 operations on CCtx (incl. MT, LDM, dictionary), CDict, DDict, DCtx with a counting allocator: '
+        'estimateDStreamSize(min(limit, window)); (dseq) every sequence of 2-3 frames out of 8 kinds (windows 1 KiB .. 128 KiB of unknown size, single-segment frames of 1000 .. 131072 bytes, '
+        'near-incompressible so that compressed blocks are as large as the block limit) on ONE static stream of estimateDStreamSize(limit) or heap stream, limit 128 KiB / 1 MiB, input whole / in 1000-byte / in 70 000-byte pieces, 4 KiB or ample output room: every frame decodes; (sizeof) histories of <= 3 operations on CCtx (incl. MT, LDM, dictionary), CDict, DDict, DCtx with a counting allocator: '
         'sizeof_* >= bytes held, nothing held after free; (dicts) static CDict / DDict of exactly the estimated size over catalogue dictionaries; '
         'distinct = distinct (block size, output); non-trivial = input > 1000 bytes / window > 1 KiB')
 SRC = ['harness/c14_budget.c', 'ref/edu_decoder.c']
@@ -15,6 +16,7 @@ def run(vc, tier):
     c.run_vx_unit('c14-levels', SRC, 'plain', ['--mode', 'levels', '--maxL', 12 if q else 22, '--D', 0, '--exec-timeout', 120000], share=0.35)
     c.run_vx_unit('c14-cparams', SRC, 'plain', ['--mode', 'cparams', '--D', 1 if q else 2, '--exec-timeout', 120000], share=0.4)
     c.run_vx_unit('c14-dstream', SRC, 'plain', ['--mode', 'dstream', '--D', 0], share=0.5)
+    c.run_vx_unit('c14-dseq', SRC, 'plain', ['--mode', 'dseq', '--D', 0, '--exec-timeout', 60000], share=0.5)
     c.run_vx_unit('c14-sizeof', SRC, 'plain', ['--mode', 'sizeof', '--D', 0, '--exec-timeout', 60000], share=0.6)
     c.run_vx_unit('c14-wear', SRC, 'plain', ['--mode', 'wear', '--D', 0, '--exec-timeout', 120000], share=0.5)
     c.run_vx_unit('c14-dicts', SRC, 'plain', ['--mode', 'dicts', '--cat', vc.catalogue('quick'), '--D', 0], share=0.9)
